@@ -37,10 +37,14 @@ def build():
             for s, kind in spell:
                 add(w + s, 1, f, sym, f"word+{kind}")
     # title-case variants of anything listed so far (rank 2)
+    # title-case variants: only those unyt actually exposes (the exposed list is the documentation; which
+    # lower-case name a title-case string stands for is decided here)
+    from unyt._unit_lookup_table import name_alternatives
+    exposed = {n for v in name_alternatives.values() for n in v}
     snapshot = {k: list(v) for k, v in tab.items()}
     for name, readings in snapshot.items():
         t = name.title()
-        if t != name:
+        if t != name and t in exposed:
             for (rank, f, sym, how) in readings:
                 if not how.startswith("title:"):
                     add(t, 0.5 if rank == 0 else 2, f, sym, "title:" + how)
